@@ -2,8 +2,23 @@
 open Model
 open Zconv
 
+(* decimal -> Z through the model's own arithmetic (counter values go up to 2^64 - 1, beyond a native int) *)
+let z_of_dec (s : string) : z =
+  let ten = z_of_int 10 in
+  let acc = ref Z0 in
+  String.iter (fun c -> acc := Z.add (Z.mul !acc ten) (z_of_int (Char.code c - 48))) s; !acc
+
+(* <n> bytes, byte i = pattern[i mod len]: what the harness passes in ONE call for updfill / hashfill / hmacfill *)
+let fill (h : string) (n : string) : z list =
+  let pat = Array.of_list (bytes_of_hex h) in
+  let len = Array.length pat in
+  if len = 0 then [] else List.init (int_of_string n) (fun i -> pat.(i mod len))
+
 let parse_op toks = match toks with
   | ["upd"; h] -> OUpdate (bytes_of_hex h)
+  | ["updfill"; h; n] -> OUpdate (fill h n)
+  | ["hashfill"; h; n] -> OHash (fill h n)
+  | ["hmacfill"; k; kn; m; mn] -> OHmac (fill k kn, fill m mn)
   | ["fin"] -> OFinalize
   | ["reset"] -> OReset
   | ["hash"; h] -> OHash (bytes_of_hex h)
@@ -13,6 +28,14 @@ let parse_op toks = match toks with
 (* updrep <hex> <times> = <times> consecutive OUpdate of the same chunk (long messages without long op lines).
    updrepx is the same call on the implementation, but too long for the extracted model and spec (~10 KB/s):
    they print wildcards from there to the end of the case, and checks/C17.py judges the case with python hashlib. *)
+(* updfillx / hashfillx / hmacfillx: one call that is too long for the extracted model and spec; same treatment.
+   setcount <n> (WHITE BOX, see harness/sha.cpp): the model follows (Model.set_count: the counter is overwritten, state
+   words and buffer stay) - a correspondence of update/finalize from a given internal state; the spec has no such
+   notion and prints wildcards to the end of the case, so the property-level oracle never judges a poked hasher. *)
+let beyond toks = match toks with
+  | ("updrepx" | "updfillx" | "hashfillx" | "hmacfillx") :: _ -> true
+  | _ -> false
+
 let rec repeat_op n f x = if n <= 0 then x else repeat_op (n - 1) f (f x)
 
 let res_str r = match r with None -> "-" | Some [] -> "-" | Some d -> hex_of_bytes d
@@ -23,11 +46,13 @@ let () =
     run_cases file (fun _ -> Some init)
       (fun st _ toks ->
          match st, toks with
-         | None, _ | _, ("updrepx" :: _) -> emit "? | ? ? | ?"; None
+         | None, _ -> emit "? | ? ? | ?"; None
+         | _, _ when beyond toks -> emit "? | ? ? | ?"; None
          | Some st, _ ->
            let (st', r) = match toks with
              | ["updrep"; h; n] -> let d = bytes_of_hex h in
                  (repeat_op (int_of_string n) (fun s -> fst (step s (OUpdate d))) st, None)
+             | ["setcount"; n] -> (set_count st (z_of_dec n), None)
              | _ -> step st (parse_op toks) in
            emit (Printf.sprintf "%s | %s %s | %s" (res_str r) (dec_of_z st'.count)
                    (String.concat "," (List.map (fun w -> Printf.sprintf "%08x" (int_of_z w)) st'.state))
@@ -38,7 +63,8 @@ let () =
     run_cases file (fun _ -> Some [])
       (fun m _ toks ->
          match m, toks with
-         | None, _ | _, ("updrepx" :: _) -> emit "?"; None
+         | None, _ | _, ("setcount" :: _) -> emit "?"; None
+         | _, _ when beyond toks -> emit "?"; None
          | Some m, ["updrep"; h; n] -> let d = bytes_of_hex h in
              emit "-"; Some (repeat_op (int_of_string n) (fun m -> fst (spec_step m (OUpdate d))) m)
          | Some m, _ -> let (m', r) = spec_step m (parse_op toks) in emit (res_str r); Some m')
